@@ -28,22 +28,26 @@ def namesOf (l : List Node) : List String :=
     | .decl (some n) _ _ => some n
     | _ => none
 
-/-- `SyntaxUtils.init_vars` -/
+/-- `SyntaxUtils.init_vars` (`att` is `getattr(e, attr, None)`: elements without the attribute
+    contribute nothing) -/
 def initVars : Option Node → M (List String × List String)
   | none => pure ([], [])
-  | some (.declList ds) => do
-    let inits ← ds.mapM fun
-      | .decl _ _ i => pure i
-      | _ => throw "AttributeError"
-    pure (namesOf ds, namesOf (inits.filterMap id))
-  | some n => do
+  | some (.declList ds) =>
+    let inits := ds.filterMap fun
+      | .decl _ _ i => i
+      | _ => none
+    pure (namesOf ds, namesOf inits)
+  | some n =>
     let exp := match n with
       | .exprList es => es
       | _ => [n]
-    let lr ← exp.mapM fun
-      | .assign _ l r => pure (l, r)
-      | _ => throw "AttributeError"
-    pure (namesOf (lr.map (·.1)), namesOf (lr.map (·.2)))
+    let ls := exp.filterMap fun
+      | .assign _ l _ => some l
+      | _ => none
+    let rs := exp.filterMap fun
+      | .assign _ _ r => some r
+      | _ => none
+    pure (namesOf ls, namesOf rs)
 
 /-- `Coverage.loop_compat` from the pieces `Variables.loop_guard` computes -/
 def loopCompatOf (iters srcs conds nxt body : List String) : Bool × Option String :=
@@ -250,8 +254,7 @@ def loopsN : Node → M (List Node)
   | .declList ds => loopsL ds
   | .exprList es => loopsL es
   | .paramList ps => loopsL ps
-  | n@(.other cls _ _) => pure (if Gen.findLoopsPass.contains cls then [] else [n])
-  | n@(.funcDecl _) => pure [n]  -- FuncDecl has no method: goes to handler (never reached from a FuncDef)
+  -- classes without a method go to `FindLoops.handler`, which records loop statements only
   | _ => pure []
 def loopsL : List Node → M (List Node)
   | [] => pure []
